@@ -310,6 +310,8 @@ package server
 //@     ghost emitted := add(emitted, cur)
 //@   at @latestOnlyWrapper$1 call Get#1 before
 //@     assert [latest-pointer-of-this-entity] len(key) == 14 && encBE16(key, 0) == 8 && encBE32(key, 2) == ds.InternalID && encBE64(key, 6) == krid(K(txnG, cur))
+//@   at @latestOnlyWrapper$1$1 call Equal#1 before
+//@     assert [latest-only-compares-the-whole-version-key] a == v2 && b == entityChangeID
 //@   at @latestOnlyWrapper$1$1 call Equal#1
 //@     ghost isLatestG := $result
 //@   at @latestOnlyWrapper$1$1 call next#1 before
@@ -684,3 +686,49 @@ package server
 //@     invariant forall a int, b int :: 0 <= a && a < b && b < len(datasetNames) ==> datasetNames[a] < datasetNames[b]
 //@     invariant forall d *Dataset :: has($held, addrOf(d.WriteLock)) ==> $i >= 0 && d.ID <= datasetNames[$i]
 //@     invariant forall l int :: has($held, l) ==> lockLevel(l) <= 2
+
+// ---------------------------------------------------------------------------
+// C01: merging the per-dataset versions of an entity (unscoped lookup): keys are united; a value present on both
+// sides becomes the flat concatenation of both (a list contributes its members, a scalar itself)
+
+//@ spec isList(x iface) bool = typeof(x) == typeid("[]interface{}")
+
+//@ unit (*Store).mergeInto
+//@   prop C01
+//@   requires target != nil && source != nil && target != source
+//@   requires target.References != nil && source.References != nil && target.Properties != nil && source.Properties != nil
+//@   requires target.References != source.References && target.References != source.Properties && target.References != target.Properties && target.Properties != source.References && target.Properties != source.Properties && source.Properties != source.References
+//@   requires forall k string :: has(target.References, k) && isList(target.References[k]) ==> foreign(cast(target.References[k], "[]interface{}"))
+//@   requires forall k string :: has(source.References, k) && isList(source.References[k]) ==> foreign(cast(source.References[k], "[]interface{}"))
+//@   ensures [merged-reference-keys] forall k string :: has(target.References, k) <==> (old(has(target.References, k)) || has(source.References, k))
+//@   ensures [target-only-references-kept] forall k string :: old(has(target.References, k)) && !has(source.References, k) ==> target.References[k] == old(target.References[k])
+//@   ensures [source-only-references-copied] forall k string :: !old(has(target.References, k)) && has(source.References, k) ==> target.References[k] == source.References[k]
+//@   ensures [common-references-become-a-flat-list] forall k string :: old(has(target.References, k)) && has(source.References, k) ==> isList(target.References[k])
+//@     | && len(cast(target.References[k], "[]interface{}")) == (isList(old(target.References[k])) ? len(cast(old(target.References[k]), "[]interface{}")) : 1) + (isList(source.References[k]) ? len(cast(source.References[k], "[]interface{}")) : 1)
+//@   ensures [source-members-appended-flat] forall k string, i int :: old(has(target.References, k)) && has(source.References, k) && 0 <= i && i < (isList(source.References[k]) ? len(cast(source.References[k], "[]interface{}")) : 1)
+//@     | ==> cast(target.References[k], "[]interface{}")[(isList(old(target.References[k])) ? len(cast(old(target.References[k]), "[]interface{}")) : 1) + i] == (isList(source.References[k]) ? cast(source.References[k], "[]interface{}")[i] : source.References[k])
+//@   at call append#6
+//@     assert [hint] forall i int :: 0 <= i && i < len(svv) ==> $result[len(v) + i] == svv[i]
+//@   at call append#7
+//@     assert [hint] $result[len(v)] == sv
+//@   at call append#9
+//@     assert [hint] forall i int :: 0 <= i && i < len(svv) ==> $result[1 + i] == svv[i]
+//@   at call append#10
+//@     assert [hint] $result[1] == sv
+//@   loop 1
+//@     invariant target.References == old(target.References) && source.References == old(source.References) && target.Properties == old(target.Properties) && source.Properties == old(source.Properties)
+//@     invariant forall k string :: (has(target.References, k) <==> old(has(target.References, k))) && target.References[k] == old(target.References[k])
+//@     invariant forall k string :: (has(source.References, k) <==> old(has(source.References, k))) && source.References[k] == old(source.References[k])
+//@   loop 2
+//@     invariant target.References == old(target.References) && source.References == old(source.References)
+//@     invariant forall k string :: (has(source.References, k) <==> old(has(source.References, k))) && source.References[k] == old(source.References[k])
+//@     invariant forall k string :: visited(k) ==> has(source.References, k)
+//@     invariant forall k string :: has(target.References, k) && isList(target.References[k]) ==> allocated(cast(target.References[k], "[]interface{}"))
+//@     invariant forall k string :: has(source.References, k) && isList(source.References[k]) ==> foreign(cast(source.References[k], "[]interface{}"))
+//@     invariant forall k string :: has(target.References, k) <==> (old(has(target.References, k)) || visited(k))
+//@     invariant forall k string :: !visited(k) ==> target.References[k] == old(target.References[k])
+//@     invariant forall k string :: visited(k) && !old(has(target.References, k)) ==> target.References[k] == source.References[k]
+//@     invariant forall k string :: visited(k) && old(has(target.References, k)) ==> isList(target.References[k])
+//@     | && len(cast(target.References[k], "[]interface{}")) == (isList(old(target.References[k])) ? len(cast(old(target.References[k]), "[]interface{}")) : 1) + (isList(source.References[k]) ? len(cast(source.References[k], "[]interface{}")) : 1)
+//@     invariant forall k string, i int :: visited(k) && old(has(target.References, k)) && 0 <= i && i < (isList(source.References[k]) ? len(cast(source.References[k], "[]interface{}")) : 1)
+//@     | ==> cast(target.References[k], "[]interface{}")[(isList(old(target.References[k])) ? len(cast(old(target.References[k]), "[]interface{}")) : 1) + i] == (isList(source.References[k]) ? cast(source.References[k], "[]interface{}")[i] : source.References[k])
